@@ -95,6 +95,8 @@ def run_symbolic(h, repo_root):
             a["cex"] = {"inputs": ob.inputs, "model": ob.model, "path": ob.path_id, "detail": ob.detail}
         if ob.result == "unknown" and not a["detail"]:
             a["detail"] = ob.detail
+        if ob.result == "unknown" and ob.inputs is not None and a.get("candidate") is None:
+            a["candidate"] = ob.inputs
     for a in agg.values():
         a["backend"] = sorted(a["backend"])
         a["status"] = "failed" if a["failed"] else ("unknown" if a["unknown"] else "discharged")
